@@ -182,7 +182,7 @@ def run_many(jobs: list[dict], parallel: int = 16) -> list[TLCResult]:
 
 
 def judge_shards(module: str, cfg_text: str, events: list, *, shard: int = 3000, parallel: int = 16,
-                 env: dict | None = None, timeout: int = 1800, heap="2g") -> list[TLCResult]:
+                 env: dict | None = None, timeout: int = 1800, heap="2g", extra_files: dict | None = None) -> list[TLCResult]:
     """Write events as ndjson shards and run the judge module on each (workers 1)."""
     wd = scratch("judge")
     try:
@@ -196,7 +196,7 @@ def judge_shards(module: str, cfg_text: str, events: list, *, shard: int = 3000,
                     fh.write(json.dumps(ev, separators=(",", ":")) + "\n")
             e = dict(env or {})
             e["TRACE_FILE"] = path
-            jobs.append(dict(module=module, cfg_text=cfg_text, workdir=sub, env=e, workers=1, timeout=timeout, heap=heap))
+            jobs.append(dict(module=module, cfg_text=cfg_text, workdir=sub, env=e, workers=1, timeout=timeout, heap=heap, extra_files=extra_files))
         return run_many(jobs, parallel)
     finally:
         shutil.rmtree(wd, ignore_errors=True)
